@@ -991,7 +991,7 @@ Lemma password_mechs_refuse : forall a,
 Proof. intros a [H | H]; subst; reflexivity. Qed.
 
 Definition never_pass (a : auth_impl) : Prop :=
-  (forall tl lh m ir, a_start a tl lh = SOk m ir -> ir <> Some TPass) /\ (forall k more, a_next a k more <> NResp TPass).
+  (forall tl lh m ir, a_start a tl lh = SOk m ir -> ir <> Some TPass) /\ (forall k more empty, a_next a k more empty <> NResp TPass).
 
 Lemma other_mechs_never_pass : forall a,
   a = cram_impl \/ a = xoauth2_impl \/ (exists n, a = scram_impl n) -> never_pass a.
